@@ -529,3 +529,89 @@ Proof.
   unfold run_fuel. rewrite map_length. change (@nil fraction) with (map ren_frac []). apply loop_ren.
 Qed.
 End EventRenaming.
+
+(** * 5. renaming the ids of out-transactions (the artificial FEE rows are out-transactions) end to end:
+      transaction sets -> taxable events -> fractions *)
+Section OutRenaming.
+Variable rho : Z -> Z.
+
+Definition ren_out (o : outtx) : outtx :=
+  {| o_row := rho (o_row o); o_ts := o_ts o; o_exch := o_exch o; o_holder := o_holder o; o_type := o_type o;
+     o_spot := o_spot o; o_crypto_out_no_fee := o_crypto_out_no_fee o; o_crypto_fee := o_crypto_fee o;
+     o_crypto_out_with_fee := o_crypto_out_with_fee o; o_fiat_out_no_fee := o_fiat_out_no_fee o;
+     o_fiat_fee := o_fiat_fee o; o_fiat_out_with_fee := o_fiat_out_with_fee o |}.
+Definition ren_txs (t : txs) : txs := {| t_ins := t_ins t; t_outs := map ren_out (t_outs t); t_intras := t_intras t |}.
+Definition ren_txn (x : txn) : txn := match x with TOut o => TOut (ren_out o) | _ => x end.
+
+Lemma sort_by_ext {A} (k1 k2 : A -> Z) : (forall x, k1 x = k2 x) -> forall l, sort_by k1 l = sort_by k2 l.
+Proof.
+  intros He. assert (Hi : forall x l, insert_by k1 x l = insert_by k2 x l).
+  { intros x l; induction l as [|y l IH]; simpl; auto. rewrite !He, IH. reflexivity. }
+  induction l as [|x l IH]; simpl; auto. rewrite IH. apply Hi.
+Qed.
+
+Lemma filter_map_comm {A B} (f : A -> B) (p : B -> bool) (q : A -> bool) : (forall x, p (f x) = q x) ->
+  forall l, filter p (map f l) = map f (filter q l).
+Proof. intros H; induction l as [|x l IH]; simpl; auto. rewrite H. destruct (q x); simpl; rewrite IH; reflexivity. Qed.
+
+Lemma taxable_unsorted_ren t : taxable_unsorted (ren_txs t) = map ren_txn (taxable_unsorted t).
+Proof.
+  unfold taxable_unsorted, ren_txs. cbn [t_ins t_outs t_intras].
+  rewrite (filter_map_comm ren_out out_is_taxable out_is_taxable) by reflexivity.
+  rewrite !map_app, !map_map. reflexivity.
+Qed.
+
+Lemma NoDup_map_inj_on {A B} (f : A -> B) l : (forall x y, In x l -> In y l -> f x = f y -> x = y) -> NoDup l -> NoDup (map f l).
+Proof.
+  induction l as [|x l IH]; intros Hinj Hn; simpl; [constructor|].
+  inversion Hn as [|? ? Hx Hl]; subst. constructor.
+  - intros Hin. apply in_map_iff in Hin as [y [Hy Hin]]. assert (y = x) by (apply Hinj; simpl; auto). subst y. auto.
+  - apply IH; auto. intros a b Ha Hb; apply Hinj; simpl; auto.
+Qed.
+
+Variable t : txs.
+(** the renaming leaves the rows of acquisitions and transfers alone and is injective on the rows present *)
+Hypothesis rho_ins : forall a, In a (t_ins t) -> rho (i_row a) = i_row a.
+Hypothesis rho_intras : forall a, In a (t_intras t) -> rho (x_row a) = x_row a.
+Hypothesis rho_inj : forall x y, In x (map t_row (taxable_unsorted t)) -> In y (map t_row (taxable_unsorted t)) -> rho x = rho y -> x = y.
+
+Lemma taxable_in x : In x (taxable_unsorted t) ->
+  match x with TIn a => In a (t_ins t) | TOut a => In a (t_outs t) | TIntra a => In a (t_intras t) end.
+Proof.
+  unfold taxable_unsorted. rewrite !in_app_iff, !in_map_iff. intros [[a [<- H]]|[[a [<- H]]|[a [<- H]]]]; apply filter_In in H; tauto.
+Qed.
+
+Lemma t_row_ren x : In x (taxable_unsorted t) -> t_row (ren_txn x) = rho (t_row x).
+Proof.
+  intros H. apply taxable_in in H. destruct x as [a|a|a]; cbn [ren_txn t_row].
+  - symmetry; apply rho_ins; exact H.
+  - reflexivity.
+  - symmetry; apply rho_intras; exact H.
+Qed.
+
+Lemma event_of_ren x : In x (taxable_unsorted t) -> event_of (ren_txn x) = ren_ev rho (event_of x).
+Proof.
+  intros H. unfold event_of, ren_ev. cbn [e_row e_us e_year e_earn e_amt]. rewrite (t_row_ren x H).
+  destruct x; reflexivity.
+Qed.
+
+Theorem fractions_out_renaming : forall b sched,
+  fractions_of b sched (ren_txs t) = map_res (map (ren_frac rho)) (fractions_of b sched t).
+Proof.
+  intros b sched. unfold fractions_of, taxable_events. rewrite taxable_unsorted_ren.
+  assert (Hrows : map t_row (map ren_txn (taxable_unsorted t)) = map rho (map t_row (taxable_unsorted t))).
+  { rewrite !map_map. apply map_ext_in. intros x Hx. apply t_row_ren; exact Hx. }
+  rewrite Hrows.
+  assert (Hdup : has_dup (map rho (map t_row (taxable_unsorted t))) = has_dup (map t_row (taxable_unsorted t))).
+  { destruct (has_dup (map t_row (taxable_unsorted t))) eqn:E.
+    - apply not_false_is_true. intros F. apply has_dup_false_NoDup in F. apply NoDup_map_inv in F.
+      apply has_dup_false_NoDup in F. congruence.
+    - apply has_dup_false_NoDup. apply NoDup_map_inj_on; [exact rho_inj|]. apply has_dup_false_NoDup; exact E. }
+  rewrite Hdup. destruct (has_dup (map t_row (taxable_unsorted t))); [reflexivity|].
+  rewrite sort_by_map. rewrite (sort_by_ext (fun b0 => t_us (ren_txn b0)) t_us) by (intros [a|a|a]; reflexivity).
+  assert (Hev : map event_of (map ren_txn (sort_by t_us (taxable_unsorted t))) =
+                map (ren_ev rho) (map event_of (sort_by t_us (taxable_unsorted t)))).
+  { rewrite !map_map. apply map_ext_in. intros x Hx. apply event_of_ren. apply (proj1 (sort_by_in t_us x (taxable_unsorted t))). exact Hx. }
+  rewrite Hev. cbn [t_ins ren_txs]. apply matcher_event_renaming.
+Qed.
+End OutRenaming.
